@@ -6,7 +6,6 @@ import (
 
 	"github.com/corestario/kyber/sign/tbls"
 
-	"github.com/lidofinance/dc4bc/client/api/dto"
 	"github.com/lidofinance/dc4bc/client/types"
 	"github.com/lidofinance/dc4bc/fsm/types/requests"
 
@@ -111,7 +110,7 @@ func runC01Case(c *Ctx, n, t int, rep uint64) {
 		switch {
 		case b == 1 && r.Intn(2) == 0:
 			lo := []int{0, 18631 - 3, r.Intn(18600)}[r.Intn(3)]
-			spec.Range = &dto.Range{Start: lo, End: lo + 1 + r.Intn(3)}
+			spec.Range = &world.Range{Start: lo, End: lo + 1 + r.Intn(3)}
 			kind = "baked"
 		case b == batches-1 && repeat != nil:
 			spec.Data = repeat
